@@ -197,6 +197,26 @@ def enumerate_cfg(cfg, cap):
     return list(itertools.islice(gen(cfg.start), cap))
 
 
+def warm_up(d, constants):
+    """Uses the same DSL object first with ANOTHER type request and ANOTHER table of
+    constants: parsing must not remember anything from one call to the next."""
+    from synth.syntax.type_system import Arrow, PrimitiveType
+    z = PrimitiveType("zzother")
+    req = z
+    for _ in range(6):
+        req = Arrow(z, req)
+    for i in range(6):
+        try:
+            d.parse_program("var%d" % i, req)
+        except Exception:
+            pass
+    for key in list(constants):
+        try:
+            d.parse_program(key, req, {key: (z, "zz")})
+        except Exception:
+            pass
+
+
 def impl(case):
     k = case["kind"]
     if k in ("texpr", "showtype", "badtype"):
@@ -206,6 +226,8 @@ def impl(case):
         request = ty(case["request"])
         constants = {text_of(key): (ty(t), value(v)) for key, t, v in case["consts"]}
         programs = [prog(w) for w in case["progs"]]
+        if case.get("warm"):
+            warm_up(d, constants)
         return {"obs": roundtrip(d, request, constants, programs)}
     if k == "grammar":
         from synth.syntax.grammars.cfg import CFG
@@ -231,6 +253,8 @@ def impl(case):
                 if isinstance(p, Function) and len(p.arguments) > 1:
                     extra.append(Function(p.function, p.arguments[:-1]))
             programs = programs + extra[: case["cap"] // 4]
+        if case.get("warm"):
+            warm_up(d, constants)
         return {
             "dsl": [[cps_of(P.primitive), ty_wire(P.type)] for P in d.list_primitives],
             "request": ty_wire(request),
